@@ -74,3 +74,12 @@ for d in /verif/seeded/S5-C*; do
   m $d/patch.diff $p $extra
 done
 m REVERT:6b18328 C15 C16
+# round 6
+for d in /verif/seeded/S6-C*; do
+  s=$(basename $d); p=${s#S6-}; p=${p%%-*}
+  extra=""
+  case $s in
+    S6-C02-1) extra="C08";; S6-C03-1) extra="C18";; S6-C04-1) extra="C10";; S6-C13-2) extra="C18";; S6-C19-1) extra="C14";; S6-C19-2) extra="C10";; S6-C04-2) extra="C16";;
+  esac
+  m $d/patch.diff $p $extra
+done
